@@ -211,3 +211,35 @@ func scheduled(sp *sc.ProcSpec) bool {
 }
 
 func f(format string, a ...any) string { return fmt.Sprintf(format, a...) }
+
+// PendingInstanceAt: does proc have an instance that was created (by the start-up or by a
+// start/restart request) and has not launched or ended yet at seq? Judged from the event log:
+// the reported status does not tell (a re-started instance waits under its predecessor's status).
+func PendingInstanceAt(ev []world.Event, proc string, seq int, initial bool) bool {
+	created := -1
+	if initial {
+		created = 0
+	}
+	for i := 0; i < seq && i < len(ev); i++ {
+		e := ev[i]
+		if e.Kind == world.EvAPIRet && e.Proc == proc && (e.Text == sc.OpStart+" ok" || e.Text == sc.OpRestart+" ok") {
+			created = i
+		}
+	}
+	if created < 0 {
+		return false
+	}
+	for i := created; i < seq && i < len(ev); i++ {
+		e := ev[i]
+		if e.Proc != proc {
+			continue
+		}
+		if e.Kind == world.EvLaunch || e.Kind == world.EvStartFail {
+			return false
+		}
+		if e.Kind == world.EvState && i > created && (e.Text == "Skipped" || e.Text == "Error" || e.Text == "Completed") {
+			return false
+		}
+	}
+	return true
+}
